@@ -103,6 +103,32 @@ static void blk_general_names(void) {
 		if (x509_signed_verify(cert, cl, &CK[1], IDS[0].p, IDS[0].n) != 1) vh_viol("C15:general-names:certificate-does-not-verify", "\"only\":%d", only);
 		vh_sample("{\"block\":\"general-names\",\"choices\":\"%s\",\"names_len\":%zu}", only < 0 ? "all nine" : CN[only], gl); }
 }
+/* CONTENT of extensions as issued and read back through the library's own readers: authorityKeyIdentifier (keyIdentifier, authorityCertIssuer,
+   authorityCertSerialNumber with every leading-octet class and length), basicConstraints, keyUsage (every single bit and all), extKeyUsage,
+   policyConstraints, inhibitAnyPolicy */
+static const uint8_t *ext_value(const uint8_t *exts, size_t el, int oid, size_t *vl, const char *what) { int crit; const uint8_t *v; if (x509_exts_get_ext_by_oid(exts, el, oid, &crit, &v, vl) != 1) { char k[96]; snprintf(k, sizeof k, "C15:ext-content:%s:not-found-again", what); vh_viol(k, "\"oid\":%d", oid); return NULL; } return v; }
+static void blk_ext_content(void) {
+	if (!vh_block_begin("extension-content")) return; static const uint8_t LEAD[] = { 0x01, 0x7f, 0x80, 0xff }; static const size_t SL[] = { 1, 2, 8, 19, 20 }; uint8_t kid[20]; for (int i = 0; i < 20; i++) kid[i] = (uint8_t)(0xe1 - 7 * i);
+	uint8_t gn[300]; size_t gl = 0; x509_general_names_add_general_name(gn, &gl, sizeof gn, X509_gn_directory_name, NAME_I, NIL); x509_general_names_add_general_name(gn, &gl, sizeof gn, X509_gn_uniform_resource_identifier, (const uint8_t *)"http://b.cn/ca", 14);
+	for (int le = 0; le < 4; le++) for (int si = 0; si < 5; si++) for (int parts = 1; parts < 8; parts++) { if (!vh_next()) continue; if (!vh_thorough && parts != 7 && parts != 4 && !(le == 2 && si == 4)) continue; uint8_t ser[20]; for (size_t i = 0; i < SL[si]; i++) ser[i] = (uint8_t)(0x11 * (i + 1)); ser[0] = LEAD[le];
+		uint8_t ex[1024]; size_t el = 0; int r = x509_exts_add_authority_key_identifier(ex, &el, sizeof ex, X509_non_critical, (parts & 1) ? kid : NULL, (parts & 1) ? 20 : 0, (parts & 2) ? gn : NULL, (parts & 2) ? gl : 0, (parts & 4) ? ser : NULL, (parts & 4) ? SL[si] : 0); size_t kk[3] = { (size_t)le, SL[si], (size_t)parts }; vh_eval(vh_hash(kk, sizeof kk, 71));
+		if (r != 1) { vh_viol("C15:ext-content:authorityKeyIdentifier:refused", "\"parts\":%d,\"serial_len\":%zu,\"lead\":%d", parts, SL[si], LEAD[le]); continue; }
+		size_t vl; const uint8_t *v = ext_value(ex, el, OID_ce_authority_key_identifier, &vl, "authorityKeyIdentifier"); if (!v) continue; const uint8_t *gk = (const uint8_t *)"x", *gi = gk, *gs = gk; size_t gkl = 77, gil = 77, gsl = 77;
+		r = x509_authority_key_identifier_from_der(&gk, &gkl, &gi, &gil, &gs, &gsl, &v, &vl); if (r != 1 || vl) { vh_viol("C15:ext-content:authorityKeyIdentifier:own-output-does-not-parse", "\"parts\":%d,\"ret\":%d", parts, r); continue; }
+		if ((parts & 1) ? (gkl != 20 || memcmp(gk, kid, 20)) : (gk != NULL || gkl)) vh_viol("C15:ext-content:authorityKeyIdentifier:keyIdentifier-differs", "\"parts\":%d,\"got_len\":%zu", parts, gkl);
+		if ((parts & 2) ? (gil != gl || memcmp(gi, gn, gl)) : (gi != NULL || gil)) vh_viol("C15:ext-content:authorityKeyIdentifier:authorityCertIssuer-differs", "\"parts\":%d,\"got_len\":%zu,\"want_len\":%zu", parts, gil, gl);
+		if (parts & 4) { const uint8_t *a = gs; size_t al = gsl; while (al > 1 && a && a[0] == 0 && !(SL[si] == al)) { a++; al--; } if (!gs || gsl != SL[si] || memcmp(gs, ser, SL[si])) vh_viol("C15:ext-content:authorityKeyIdentifier:authorityCertSerialNumber-differs", "\"supplied\":\"%s\",\"got\":\"%s\"", vh_hex(ser, SL[si]), gs ? vh_hex(gs, gsl > 30 ? 30 : gsl) : "(null)"); (void)a; (void)al; } else if (gs != NULL || gsl) vh_viol("C15:ext-content:authorityKeyIdentifier:authorityCertSerialNumber-differs", "\"supplied\":\"none\",\"got_len\":%zu", gsl);
+		vh_sample("{\"block\":\"extension-content\",\"aki_parts\":%d,\"serial_len\":%zu,\"serial_lead\":%d}", parts, SL[si], LEAD[le]); }
+	/* basicConstraints x keyUsage x extKeyUsage x policyConstraints x inhibitAnyPolicy */
+	for (int ca = 0; ca < 2; ca++) for (int pl = -1; pl <= 6; pl += (pl < 1 ? 1 : 5)) for (int kb = 0; kb <= 9; kb++) { if (!vh_next()) continue; if (!ca && pl >= 0) continue; uint8_t ex[512]; size_t el = 0; int ku = kb == 9 ? 0x1ff : (1 << kb); int kp[3] = { OID_kp_client_auth, OID_kp_server_auth, OID_kp_ocsp_signing };
+		int r = x509_exts_add_basic_constraints(ex, &el, sizeof ex, X509_critical, ca, pl) == 1 && x509_exts_add_key_usage(ex, &el, sizeof ex, X509_critical, ku) == 1 && x509_exts_add_ext_key_usage(ex, &el, sizeof ex, X509_non_critical, kp, 1 + kb % 3) == 1 && x509_exts_add_policy_constraints(ex, &el, sizeof ex, X509_critical, kb % 4, pl < 0 ? -1 : pl + 1) == 1 && x509_exts_add_inhibit_any_policy(ex, &el, sizeof ex, X509_critical, kb) == 1;
+		size_t kk[3] = { (size_t)ca, (size_t)(pl + 1), (size_t)kb }; vh_eval(vh_hash(kk, sizeof kk, 73)); if (!r) { vh_viol("C15:ext-content:refused", "\"ca\":%d,\"pathlen\":%d,\"ku\":%d", ca, pl, ku); continue; } size_t vl; const uint8_t *v;
+		if ((v = ext_value(ex, el, OID_ce_basic_constraints, &vl, "basicConstraints"))) { int gca = -7, gpl = -7; if (x509_basic_constraints_from_der(&gca, &gpl, &v, &vl) != 1 || vl || (gca > 0) != ca || gpl != pl) vh_viol("C15:ext-content:basicConstraints-differs", "\"ca\":%d,\"pathlen\":%d,\"got_ca\":%d,\"got_pathlen\":%d", ca, pl, gca, gpl); }
+		if ((v = ext_value(ex, el, OID_ce_key_usage, &vl, "keyUsage"))) { int g = -7; if (x509_key_usage_from_der(&g, &v, &vl) != 1 || vl || g != ku) vh_viol("C15:ext-content:keyUsage-differs", "\"bits\":%d,\"got\":%d", ku, g); }
+		if ((v = ext_value(ex, el, OID_ce_ext_key_usage, &vl, "extKeyUsage"))) { int g[8]; size_t gc = 99; if (x509_ext_key_usage_from_der(g, &gc, 8, &v, &vl) != 1 || vl || gc != (size_t)(1 + kb % 3) || memcmp(g, kp, gc * sizeof(int))) vh_viol("C15:ext-content:extKeyUsage-differs", "\"count\":%d,\"got_count\":%zu", 1 + kb % 3, gc); }
+		if ((v = ext_value(ex, el, OID_ce_policy_constraints, &vl, "policyConstraints"))) { int a = -7, b = -7; if (x509_policy_constraints_from_der(&a, &b, &v, &vl) != 1 || vl || a != kb % 4 || b != (pl < 0 ? -1 : pl + 1)) vh_viol("C15:ext-content:policyConstraints-differs", "\"require\":%d,\"inhibit\":%d,\"got\":[%d,%d]", kb % 4, pl < 0 ? -1 : pl + 1, a, b); }
+		if ((v = ext_value(ex, el, OID_ce_inhibit_any_policy, &vl, "inhibitAnyPolicy"))) { int g = -7; if (x509_inhibit_any_policy_from_der(&g, &v, &vl) != 1 || vl || g != kb) vh_viol("C15:ext-content:inhibitAnyPolicy-differs", "\"skip\":%d,\"got\":%d", kb, g); } }
+}
 static void blk_reqs(void) {
 	if (!vh_block_begin("reqs")) return;
 	for (int sid = 0; sid < 4; sid++) for (int nm = 0; nm < 3; nm++) { if (!vh_next()) continue; uint8_t subj[256]; size_t sl = 0; x509_name_set(subj, &sl, sizeof subj, "CN", nm ? "Beijing" : NULL, NULL, nm == 2 ? "Org" : NULL, NULL, "req");
@@ -165,5 +191,5 @@ static void blk_names(void) {
 		if (ok && c.n) { ok = 0; why = "extra-rdn"; } if (!ok) { snprintf(key, sizeof key, "C15:names:%s", why); vh_viol(key, "\"kinds\":\"%d%d%d%d%d%d\",\"attribute\":%d,\"name\":\"%s\"", kind[0], kind[1], kind[2], kind[3], kind[4], kind[5], at, vh_hex(nm, nl > 120 ? 120 : nl)); continue; }
 		if ((mask % 7) == 0 || vh_thorough) { static uint8_t cert[2048]; uint8_t *p = cert; size_t cl = 0; uint8_t serial[2] = { 2, (uint8_t)mask }; venv_reset(7000 + mask); r = x509_cert_sign_to_der(X509_version_v3, serial, 2, OID_sm2sign_with_sm3, NAME_I, NIL, VENV_NOW - 1000, VENV_NOW + 100000, nm, nl, &CK[0], NULL, 0, NULL, 0, NULL, 0, &CK[1], SM2_DEFAULT_ID, 16, &p, &cl); const uint8_t *sub; size_t subl; if (r != 1 || x509_cert_get_subject(cert, cl, &sub, &subl) != 1 || subl != nl || memcmp(sub, nm, nl)) { vh_viol("C15:names:subject-not-returned-as-supplied", "\"kinds\":\"%d%d%d%d%d%d\",\"ret\":%d", kind[0], kind[1], kind[2], kind[3], kind[4], kind[5], r); } } }
 }
-static void body(void) { blk_certs(); blk_unique_ids(); blk_general_names(); blk_reqs(); blk_crls(); blk_ext_sizes(); blk_names(); }
+static void body(void) { blk_certs(); blk_unique_ids(); blk_general_names(); blk_ext_content(); blk_reqs(); blk_crls(); blk_ext_sizes(); blk_names(); }
 int main(int argc, char **argv) { vh_init(argc, argv); if (!freopen("/dev/null", "w", stderr)) {} creds_init(); make_name(NAME_I, &NIL, "Issuer"); x509_name_set(NAME_S, &NSL, sizeof NAME_S, "CN", "Beijing", "Haidian", "PKU", "CS", "Subject"); vh_guarded("C15", body, 120); return vh_finish(); }
